@@ -538,6 +538,13 @@ class Interp:
         v = self.ev(n.operand, env)
         if isinstance(n.op, ast.Not):
             return not self.truth(v)
+        if isinstance(n.op, ast.Invert) and is_sym(v) and z3.is_bool(v):
+            return z3.Not(v)            # ~ on a numpy boolean
+        if isinstance(v, Ext) and hasattr(v, 'cx_unary'):
+            r = v.cx_unary(self, n.op)
+            if r is NotImplemented:
+                raise Unsupported(f'{type(n.op).__name__} on extension value')
+            return r
         if isinstance(v, Opaque):
             return Opaque('unary', [v])
         if isinstance(v, NDArr):
